@@ -309,18 +309,32 @@ def _trait_of(p):
 
 # ---- decision tables over loop-free CFGs -----------------------------------
 
-def decision_walk(fn, choose, watch_locals=(), start=0, limit=4096):
+def decision_walk(fn, choose, watch_locals=(), start=0, limit=4096, track=None):
     """Enumerate the decision outcomes of a loop-free region: starting at `start`,
     follow the CFG; at each switch ask choose(SwitchInfo) for the labels to follow
     (None = all edges).  Returns a list of outcomes, one per maximal walk:
     {'end': block, 'last': {local: (block, rvalue-expr)}, 'trace': [(switch_block, label)], 'calls': [blocks]}.
     This is a finite case split over branch labels (a truth table), not an execution:
     no values are computed beyond what `choose` decides."""
+    """track = {'call_value': f(term) -> bool|None, 'place_value': f(place) -> bool|None}: additionally propagate
+    boolean constants along each walk (const / copy / Not assignments, the two hooks for calls and loads) and
+    follow only the matching edge of a switch on a known boolean; outcomes then carry 'env' (local -> bool)."""
     out = []
-    stack = [(start, {}, [], [], frozenset())]
+    stack = [(start, {}, [], [], frozenset(), {})]
     n = 0
+
+    def opval(env, op):
+        c = op.get("const")
+        if c is not None:
+            return bool(c.get("value")) if c.get("kind") == "bool" else None
+        pl = op.get("copy") or op.get("move")
+        if pl is None:
+            return None
+        if not pl["p"]:
+            return env.get(pl["l"])
+        return track["place_value"](pl) if track and track.get("place_value") else None
     while stack:
-        b, last, trace, calls, seen = stack.pop()
+        b, last, trace, calls, seen, env = stack.pop()
         n += 1
         if n > limit:
             raise ShapeUnrecognised("decision table too large")
@@ -328,33 +342,57 @@ def decision_walk(fn, choose, watch_locals=(), start=0, limit=4096):
             raise ShapeUnrecognised("decision_walk: loop reached at bb%d" % b)
         seen = seen | {b}
         last = dict(last)
+        env = dict(env)
         for s in fn.stmts(b):
             if s["k"] == "assign" and not s["lhs"]["p"] and s["lhs"]["l"] in watch_locals:
                 last[s["lhs"]["l"]] = (b, fn._rvalue(s["rv"], frozenset(), 30, b))
+            if track is not None and s["k"] == "assign" and not s["lhs"]["p"]:
+                rv = s["rv"]
+                v = None
+                if rv["k"] == "use":
+                    v = opval(env, rv["a"])
+                elif rv["k"] == "un" and rv.get("op") == "Not":
+                    x = opval(env, rv["a"])
+                    v = None if x is None else (not x)
+                if v is None:
+                    env.pop(s["lhs"]["l"], None)
+                else:
+                    env[s["lhs"]["l"]] = v
         t = fn.term(b)
         if t["k"] == "call":
             calls = calls + [b]
             if not t["dest"]["p"] and t["dest"]["l"] in watch_locals:
                 last[t["dest"]["l"]] = (b, fn._call_expr(t, b, frozenset(), 30))
+            if track is not None and not t["dest"]["p"]:
+                v = track["call_value"](t) if track.get("call_value") else None
+                if v is None:
+                    env.pop(t["dest"]["l"], None)
+                else:
+                    env[t["dest"]["l"]] = v
         if t["k"] == "switch":
             si = SwitchInfo(fn, b)
-            want = choose(si)
+            want = None
+            dv = opval(env, t["discr"]) if track is not None else None
+            if dv is not None and si.is_bool:
+                want = [dv]
+            else:
+                want = choose(si)
             took = False
             for lab, tgt in si.labelled_edges():
                 if isinstance(lab, tuple) and lab and lab[0] == "otherwise" and not lab[1]:
                     continue  # unreachable otherwise-arm of an exhaustive enum match
                 if want is None or lab in want:
                     took = True
-                    stack.append((tgt, last, trace + [(b, lab)], calls, seen))
+                    stack.append((tgt, last, trace + [(b, lab)], calls, seen, env))
             if not took:
-                out.append({"end": b, "last": last, "trace": trace, "calls": calls, "stuck": True})
+                out.append({"end": b, "last": last, "trace": trace, "calls": calls, "stuck": True, "env": env})
             continue
         succ = fn.succ[b]
         if not succ:
-            out.append({"end": b, "last": last, "trace": trace, "calls": calls})
+            out.append({"end": b, "last": last, "trace": trace, "calls": calls, "env": env})
             continue
         for sx in succ:
-            stack.append((sx, last, trace, calls, seen))
+            stack.append((sx, last, trace, calls, seen, env))
     return out
 
 
